@@ -153,29 +153,34 @@ Definition set_ph (s : lstate) (ph : phase) : lstate :=
   {| l_a := l_a s; l_ph := ph; l_cache := l_cache s; l_conn := l_conn s; l_banned := l_banned s;
      l_synced := l_synced s; l_panic := l_panic s; l_cache_bl := l_cache_bl s; l_flag := l_flag s |}.
 
-(* one iteration of "for len(goodCheckpoints) == 0 && lastHeight >= 1000"
-   with the tip (lastH, lastX), followed by getCheckpointedCFHeaders if it
-   produced a list *)
-Definition attempt (c : lcfg) (s : lstate) (lastH lastX : Z) (d : rdata) : lstate * rout :=
+(* "If the height now exceeds the height at which we fetched the checkpoints
+   last time, we must query our peers again": (re-queried?, the lists) *)
+Definition lists_of (c : lcfg) (s : lstate) (lastH lastX : Z) (d : rdata) : bool * list (Z * list Z) :=
+  let refetch := min_checkpoint_height (l_cache s) <? lastH in
+  (refetch,
+   if refetch then accept_cp (snd (best c lastH lastX)) (onlyc (l_conn s) cr_peer (d_cpans d)) []
+   else l_cache s).
+
+(* resolveConflict on the capped lists *)
+Definition resolve_of (c : lcfg) (s : lstate) (lastH lastX : Z) (d : rdata) : list Z * option (list Z) :=
+  resolve_conflict H (c_hard c) (aview (l_a s)) (d_env d) (onlyc (l_conn s) r_peer (d_raws d)) (d_hint d)
+                   (cap lastH (snd (lists_of c s lastH lastX d))).
+
+(* the rest of one iteration of "for len(goodCheckpoints) == 0 && lastHeight
+   >= 1000" once the lists are there, followed by getCheckpointedCFHeaders
+   if it produced a list.  [cbl], [flag]: the new values of the ghosts *)
+Definition attempt_with (c : lcfg) (s : lstate) (lastH lastX : Z) (d : rdata)
+           (refetch : bool) (cache : list (Z * list Z)) (cbl : list Z) (flag : Z) : lstate * rout :=
   let a := l_a s in
   let conn := l_conn s in
-  let '(bestH, bestX) := best c lastH lastX in
-  let refetch := min_checkpoint_height (l_cache s) <? lastH in
-  let cache := if refetch then accept_cp bestX (onlyc conn cr_peer (d_cpans d)) [] else l_cache s in
-  let cbl := if refetch then abl a else l_cache_bl s in
-  let asked := if refetch then Some bestX else None in
-  let flag := if negb refetch && negb (zlist_eqb (l_cache_bl s) (abl a)) &&
-                 match c_cp c with Some (ch, _) => ch <=? lastH | None => true end
-              then 21 else l_flag s in
+  let asked := if refetch then Some (snd (best c lastH lastX)) else None in
   let failph := if c_legacy c then PRetry lastH lastX else PWait in
   if refetch && (length cache =? 0)%nat then
     ({| l_a := a; l_ph := failph; l_cache := cache; l_conn := conn; l_banned := l_banned s;
         l_synced := l_synced s; l_panic := false; l_cache_bl := cbl; l_flag := flag |},
      (1, asked, []))
   else
-  let cps := cap lastH cache in
-  let '(bans, res) := resolve_conflict H (c_hard c) (aview a) (d_env d)
-                        (onlyc conn r_peer (d_raws d)) (d_hint d) cps in
+  let '(bans, res) := resolve_of c s lastH lastX d in
   let s1 := {| l_a := a; l_ph := failph; l_cache := cache; l_conn := conn; l_banned := l_banned s;
                l_synced := l_synced s; l_panic := false; l_cache_bl := cbl; l_flag := flag |} in
   let '(conn1, banned1) := do_ban s1 bans in
@@ -196,6 +201,18 @@ Definition attempt (c : lcfg) (s : lstate) (lastH lastX : Z) (d : rdata) : lstat
         l_cache_bl := if c_legacy c then cbl else []; l_flag := flag |},
      (2, asked, bans))
   end.
+
+(* the ghost flag: the lists are used again although the chain is not the
+   one they were fetched for (only when they were fetched for the tip) *)
+Definition stale_flag (c : lcfg) (s : lstate) (lastH : Z) (refetch : bool) : Z :=
+  if negb refetch && negb (zlist_eqb (l_cache_bl s) (abl (l_a s))) &&
+     match c_cp c with Some (ch, _) => ch <=? lastH | None => true end
+  then 21 else l_flag s.
+
+Definition attempt (c : lcfg) (s : lstate) (lastH lastX : Z) (d : rdata) : lstate * rout :=
+  let refetch := fst (lists_of c s lastH lastX d) in
+  attempt_with c s lastH lastX d refetch (snd (lists_of c s lastH lastX d))
+               (if refetch then abl (l_a s) else l_cache_bl s) (stale_flag c s lastH refetch).
 
 (* from waitForHeaders *)
 Definition wait_round (c : lcfg) (s : lstate) (d : rdata) : lstate * rout :=
